@@ -265,13 +265,18 @@ func (r *Result) Finish(t *Tables, evidenceDir string) int {
 	for k, v := range r.Counters {
 		cov[k] = v
 	}
+	assumptions := r.Assumptions
+	if assumptions == nil {
+		assumptions = []string{}
+	}
+	assumptions = append(assumptions, "go/types, go/ssa and the VTA call graph of golang.org/x/tools v0.29.0 model /repo's source faithfully")
 	ev := map[string]interface{}{
 		"property_id": r.Prop,
 		"tier":        r.Tier,
 		"seed":        r.Seed,
 		"level":       "other",
 		"coverage":    cov,
-		"assumptions": r.Assumptions,
+		"assumptions": assumptions,
 		"wall_s":      time.Since(r.start).Seconds(),
 		"violations":  nViol,
 	}
